@@ -75,3 +75,12 @@ Theorem C11_repo_order__update :
   = lits ["vcs.assert_not_dirty"; "v2rewrite.rewrite_files"; "v1rewrite.rewrite_files"; "vcs.commit"].
 Proof. exact c11_order__update. Qed.
 Print Assumptions C11_repo_order__update.
+
+(* the status commands extracted from the source ask for the plain status of the whole working tree *)
+From Coq Require Import Strings.String.
+From BV Require Import Lib.StrLit Gen.Tables.
+Theorem C11_repo_status_templates :
+  assoc (StrLit.lit "status") VCS_SUBCOMMANDS_GIT = Some (StrLit.lit "git status --porcelain") /\
+  assoc (StrLit.lit "status") VCS_SUBCOMMANDS_HG = Some (StrLit.lit "hg status -umard").
+Proof. exact repo_status_templates. Qed.
+Print Assumptions C11_repo_status_templates.
